@@ -371,7 +371,16 @@ func (c *client) findClients(ctx context.Context, batch []hrpc.Call, res []hrpc.
 	rpcByClient := make(map[hrpc.RegionClient][]hrpc.Call)
 	ok := true
 	for i, rpc := range batch {
-		rc, err := c.getRegionAndClientForRPC(ctx, rpc)
+		// a call can have a context of its own, don't keep
+		// looking for its region once that context is done
+		lookupCtx, cancel := ctx, context.CancelFunc(nil)
+		if rctx := rpc.Context(); rctx != ctx && rctx.Done() != nil {
+			lookupCtx, cancel = context.WithCancel(ctx)
+			stop := context.AfterFunc(rctx, cancel)
+			defer stop()
+			defer cancel()
+		}
+		rc, err := c.getRegionAndClientForRPC(lookupCtx, rpc)
 		if err != nil {
 			res[i].Error = err
 			ok = false
